@@ -195,3 +195,28 @@ pub fn enc_wm(d: &mut Doc, items: &[u64], n: usize, width: usize, sigma: usize, 
     d.int_vector(&f, sigma, fw);
     re
 }
+
+/// A reader over the elements of a Doc that fills the destination byte by byte (concrete
+/// indices; no memcpy of a byte array, which CBMC encodes through expensive array operations).
+pub struct Reader<'a> { pub d: &'a Doc, pub pos: usize, pub limit: usize }
+
+impl<'a> Reader<'a> {
+    pub fn new(d: &'a Doc) -> Reader<'a> { Reader { d, pos: 0, limit: 8 * d.n } }
+    pub fn with_limit(d: &'a Doc, limit: usize) -> Reader<'a> { Reader { d, pos: 0, limit } }
+    pub fn remaining(&self) -> usize { self.limit - self.pos }
+}
+
+impl<'a> std::io::Read for Reader<'a> {
+    fn read(&mut self, buf: &mut [u8]) -> std::io::Result<usize> {
+        let avail = self.limit - self.pos;
+        let n = if buf.len() < avail { buf.len() } else { avail };
+        let mut i = 0;
+        while i < n {
+            let p = self.pos + i;
+            buf[i] = (self.d.e[p >> 3] >> (8 * (p & 7))) as u8;
+            i += 1;
+        }
+        self.pos += n;
+        Ok(n)
+    }
+}
